@@ -54,6 +54,9 @@ inductive HKind where
   | closer (deadline : Nat)
   /-- calls `session.abort()` and returns -/
   | aborter
+  /-- waits like `slow`; when the application lets it go on (`handlerFinish`) it calls
+      `session.close(force_after)` - some time into its processing window -/
+  | thenClose (forceAfter : Nat)
   deriving Repr, DecidableEq
 
 inductive HStatus where
@@ -350,6 +353,26 @@ def finishHandler (i : Nat) (h : Handler) : Handler :=
   if h.id == i && h.status == HStatus.run && h.kind.finishable
   then { h with status := .done } else h
 
+/-- the `force_after` with which handler `h` calls `close()` if it is the waiting handler `i`
+that is now let go on -/
+def resuming (i : Nat) (h : Handler) : Option Nat :=
+  if h.id == i && h.status == HStatus.run then
+    match h.kind with
+    | .thenClose fa => some fa
+    | _ => none
+  else none
+
+/-- ... it is inside `close(force_after)` from now on, until `force_after` or - repaired code -
+its processing deadline (with `force_after = 0` it is through at once, see `S.startCloser`) -/
+def toCloser (fixed : Bool) (now i : Nat) (h : Handler) : Handler :=
+  if h.id == i && h.status == HStatus.run then
+    match h.kind with
+    | .thenClose fa =>
+      { h with kind := .closer (if fixed then min (now + fa) h.pdl else now + fa),
+               status := if fa == 0 then .done else .run }
+    | _ => h
+  else h
+
 def crashHandler (i : Nat) (h : Handler) : Handler :=
   if h.id == i && h.status == HStatus.run && h.kind == HKind.slow
   then { h with status := .done } else h
@@ -383,6 +406,7 @@ def S.startHandler (s : S) (i : Nat) (k : HKind) : S :=
   | .slow => { s with handlers := s.handlers ++ [⟨i, .slow, .run, pdl⟩] }
   | .stubborn r => { s with handlers := s.handlers ++ [⟨i, .stubborn r, .run, pdl⟩] }
   | .aborter => S.doAbort { s with handlers := s.handlers ++ [⟨i, .aborter, .done, pdl⟩] }
+  | .thenClose fa => { s with handlers := s.handlers ++ [⟨i, .thenClose fa, .run, pdl⟩] }
   | .closer fa =>
     -- `fa` is the force_after argument here; the record stores the absolute deadline
     s.startCloser i (closerDeadline s.fixed s.now fa s.procTimeout) pdl (fa == 0)
@@ -419,7 +443,13 @@ def step (s : S) : Event → S
     -- called *outside* `timeout_after(processing_timeout)`
     if s.closing || s.down || usedHandler s i then s
     else s.startCloser i (s.now + fa) (s.now + fa) (fa == 0)
-  | .handlerFinish i => { s with handlers := s.handlers.map (finishHandler i) }
+  | .handlerFinish i =>
+    match s.handlers.findSome? (resuming i) with
+    | none => { s with handlers := s.handlers.map (finishHandler i) }
+    | some fa =>
+      -- a handler that waited now calls `close(force_after)`
+      let s1 : S := { s with handlers := s.handlers.map (toCloser s.fixed s.now i) }
+      if fa == 0 then s1.transportClose.doAbort else s1.transportClose
   | .handlerCancel i => s.crash i
   | .outgoing k =>
     if usedTicket s k then s
